@@ -132,6 +132,9 @@ func runSched(property string, u fw.Unit, scenarios []schedScenario) fw.Result {
 	if int64(total.MaxPoints) > res.Extra["max_points_per_execution"] {
 		res.Extra["max_points_per_execution"] = int64(total.MaxPoints)
 	}
+	if total.MaxPoints > 1500 {
+		res.Extra["long_execution|"+sc.Name] = int64(total.MaxPoints)
+	}
 	for k := range total.Outcomes {
 		res.Outcomes = append(res.Outcomes, sc.Name+"|"+fw.Hash(k))
 	}
